@@ -34,7 +34,12 @@ type env struct {
 	gasID  int32
 	neoID  int32
 	polID  int32
+	nonce  uint32
 }
+
+// nonces are per-chain counters (neotest.Nonce is a process-wide counter: fine too, but this keeps
+// a case independent of the cases before it).
+func (v *env) nextNonce() uint32 { v.nonce++; return v.nonce + 1000 }
 
 var interp = buildInterp()
 
@@ -50,6 +55,7 @@ func newEnv() *env {
 	v.gasID = e.NativeID(tb, nativenames.Gas)
 	v.neoID = e.NativeID(tb, nativenames.Neo)
 	v.polID = e.NativeID(tb, nativenames.Policy)
+	v.w.ext = util.Uint160{0xee, 8, 8, 8}
 	v.sender = e.NewAccount(tb, 100000_0000_0000)
 	// deploy the interpreter contracts in one block
 	var txs []*transaction.Transaction
@@ -70,7 +76,7 @@ func newEnv() *env {
 			panic(err)
 		}
 		tx := transaction.New(script, 0)
-		tx.Nonce = neotest.Nonce()
+		tx.Nonce = v.nextNonce()
 		tx.ValidUntilBlock = bc.BlockHeight() + 1
 		e.SignTx(tb, tx, 20_0000_0000, comm)
 		txs = append(txs, tx)
@@ -93,7 +99,7 @@ func (v *env) close() { v.tb.done() }
 // withCommittee adds the committee as a second (Global) signer.
 func (v *env) newTx(script []byte, sysFee int64, withCommittee bool) *transaction.Transaction {
 	tx := transaction.New(script, 0)
-	tx.Nonce = neotest.Nonce()
+	tx.Nonce = v.nextNonce()
 	tx.ValidUntilBlock = v.bc.BlockHeight() + 1
 	signers := []neotest.Signer{v.sender}
 	if withCommittee {
@@ -130,7 +136,8 @@ func (v *env) snap() *snapshot {
 		nb, _ := v.bc.GetGoverningTokenBalance(v.w.hashes[i])
 		s.neo[i] = nb
 	}
-	s.gas[-1] = v.bc.GetUtilityTokenBalance(v.sender.ScriptHash(), util.Uint160{})
+	s.gas[senderAcc] = v.bc.GetUtilityTokenBalance(v.sender.ScriptHash(), util.Uint160{})
+	s.gas[extAcc] = v.bc.GetUtilityTokenBalance(v.w.ext, util.Uint160{})
 	sort.Slice(s.store, func(a, b int) bool {
 		if s.store[a].c != s.store[b].c {
 			return s.store[a].c < s.store[b].c
